@@ -22,7 +22,7 @@ TRUSTED = ["Lean 4 kernel", "axioms: propext, Quot.sound, Classical.choice (at m
 ASSUMPTIONS = ["termination / exit status are observed on the end-to-end runs only (the LTS theorem is a safety property)"]
 RULE = ("seeded session scripts: 1..4 commands, files of 0,1,99,100,101,250 lines, consumer pacings (fast, slow, stalls of 50..400 ms before, "
         "around and after end of file), commands sent together or after an idle session (the recorded finding); end-to-end dcat runs with a "
-        "throttled pipe reader, serverless and SSH; non-trivial = multi-command / queue-full / closed / late-command tag")
+        "throttled pipe reader, serverless and SSH; non-trivial = multi-command / queue-full / closed / late-command tag; c02.long: single files some of whose lines are several KiB long")
 
 
 def gen(rng, budget, tier):
